@@ -44,6 +44,13 @@ type runner struct {
 	rng      *rand.Rand
 	thorough bool
 	dead     map[Target]bool // servers that stopped answering: nothing more is sent to them
+	hist     []sent          // survive runs: everything handed to the current server, in order
+	record   bool
+}
+
+type sent struct {
+	c  Case
+	in Input
 }
 
 func (r *runner) fuzzN() int {
@@ -98,6 +105,9 @@ func (r *runner) exchange(t Target, c Case, in Input) Observed {
 		return Observed{Dead: true}
 	}
 	r.s.About(c.Label, describe(t, c, in))
+	if r.record {
+		r.hist = append(r.hist, sent{c, in})
+	}
 	op := t.ModelOp(in) // before the exchange: it carries the state the server is in when the input arrives
 	o := t.Exchange(in)
 	op["c"] = r.f.Comp + "." + op["k"].(string)
@@ -386,7 +396,8 @@ func (r *runner) runWF() {
 		r.fail("setup-small", err)
 		return
 	}
-	cs := MutationCases(reg, false)
+	cs := LifecycleCases(reg)
+	cs = append(cs, MutationCases(reg, false)...)
 	cs = append(cs, OtherMessages(reg)...)
 	cs = append(cs, GarbageCases(reg, r.rng, r.thorough)...)
 	cs = append(cs, FuzzCases(reg, r.rng, r.fuzzN())...)
@@ -395,6 +406,7 @@ func (r *runner) runWF() {
 		r.httpCases(t)
 		t.Close()
 	}
+	r.pipelined(reg)
 	r.s.SetExtra("cases", map[string]any{"mutation+other+garbage": len(cs)})
 }
 
@@ -512,7 +524,96 @@ func (r *runner) runAlike() {
 
 const goodBody = `{"jsonrpc":"2.0","id":"good","method":"tools/call","params":{"name":"echo","arguments":{"k":[1,"two",{"three":3}]}}}`
 
-func (r *runner) surviveOn(t Target, cs []Case) {
+// probe: the liveness checks after a batch — the reference request is answered as on the fresh server, a ping works on the
+// connection in use and on a fresh one, and a complete new session can be set up on a new connection. "" = all fine.
+func (r *runner) probe(t Target, goodIn Input, ref Observed, after string) string {
+	kind := t.Kind()
+	r.s.About("good-request after "+after, map[string]any{"server": t.Name(), "body": goodBody})
+	o := t.Exchange(goodIn)
+	same := reflect.DeepEqual(o.Outcome(), ref.Outcome())
+	r.s.Count("good:"+t.Name()+":"+after, same, nil, "good-request-after-garbage")
+	if !same {
+		r.s.Violate(hk.Violation{Fingerprint: "rpc:" + kind + ":good-request-after-garbage-differs",
+			What:  "a well-formed request is answered differently after malformed input than on a fresh server",
+			Input: map[string]any{"server": t.Name(), "after": after, "body": goodBody}, Observed: o.Outcome(), Expected: ref.Outcome()})
+	}
+	if why := t.Alive(); why != "" {
+		r.s.Violate(hk.Violation{Fingerprint: "rpc:" + kind + ":not-alive-after-batch", What: "ping after a batch of malformed input: " + why,
+			Input: map[string]any{"server": t.Name(), "after": after}})
+		return "ping: " + why
+	}
+	r.s.Count("handshake:"+t.Name()+":"+after, true, nil, "fresh-session-handshake")
+	if why := t.Handshake(); why != "" {
+		return "fresh session: " + why
+	}
+	return ""
+}
+
+// locate finds the shortest prefix of the history after which a fresh session can no longer be set up: first the last
+// batch alone, one input at a time on a new server, then — if that does not reproduce it — the whole history.
+func (r *runner) locate(mk func() (Target, error), batchStart int) (int, string) {
+	try := func(from int) (int, string) {
+		t2, err := mk()
+		if err != nil {
+			return -1, ""
+		}
+		defer t2.Close()
+		for i := from; i < len(r.hist); i++ {
+			t2.Exchange(r.hist[i].in)
+			if why := t2.Handshake(); why != "" {
+				return i, why
+			}
+		}
+		return -1, ""
+	}
+	if i, why := try(batchStart); i >= 0 {
+		return i, why
+	}
+	if batchStart > 0 {
+		return try(0)
+	}
+	return -1, ""
+}
+
+func (r *runner) unresponsive(t Target, mk func() (Target, error), batchStart int, why string) {
+	hist := r.hist
+	r.record = false
+	idx, why2 := r.locate(mk, batchStart)
+	class, input := "unlocated", any(map[string]any{"server": t.Name(), "last_inputs": labels(hist[batchStart:])})
+	what := "after this batch of inputs a new client can no longer complete initialize / notifications/initialized / tools/list on a new connection (" + why + "); replaying the inputs on a fresh server did not reproduce it"
+	if idx >= 0 {
+		c := hist[idx]
+		class = c.c.Exp.Class
+		if c.c.Exp.Method != "" {
+			class += ":" + c.c.Exp.Method
+		}
+		from := batchStart
+		if idx < batchStart {
+			from = 0
+		}
+		input = map[string]any{"culprit": describe(t, c.c, c.in), "inputs_before_it_on_a_fresh_server": labels(hist[from:idx])}
+		what = "after this input a new client can no longer complete initialize / notifications/initialized / tools/list on a new connection: " + why2
+	}
+	r.s.Violate(hk.Violation{Fingerprint: "rpc:" + t.Kind() + ":unresponsive-after-input:" + class, What: what, Input: input,
+		Observed: why, Expected: "the next well-formed request from any client is served normally"})
+	if r.dead == nil {
+		r.dead = map[Target]bool{}
+	}
+	r.dead[t] = true
+}
+
+func labels(h []sent) []string {
+	out := []string{}
+	for _, x := range h {
+		out = append(out, x.c.Label)
+	}
+	if len(out) > 40 {
+		out = append([]string{fmt.Sprintf("… %d earlier inputs …", len(out)-40)}, out[len(out)-40:]...)
+	}
+	return out
+}
+
+func (r *runner) surviveOn(t Target, cs []Case, mk func() (Target, error)) {
 	kind := t.Kind()
 	t0 := time.Now()
 	lap := func(what string) {
@@ -528,42 +629,61 @@ func (r *runner) surviveOn(t Target, cs []Case) {
 		r.s.Violate(hk.Violation{Fingerprint: "rpc:" + kind + ":reference-request-unanswered", What: "the well-formed reference request is not answered on a fresh server", Input: goodBody, Observed: ref.Outcome()})
 		return
 	}
+	r.hist, r.record = nil, true
+	defer func() { r.record = false }()
+	batchStart := 0
 	check := func(after string) {
 		if r.dead[t] {
 			return
 		}
-		r.s.About("good-request after "+after, map[string]any{"server": t.Name(), "body": goodBody})
-		o := t.Exchange(goodIn)
-		same := reflect.DeepEqual(o.Outcome(), ref.Outcome())
-		r.s.Count("good:"+t.Name()+":"+after, same, nil, "good-request-after-garbage")
-		if !same {
-			r.s.Violate(hk.Violation{Fingerprint: "rpc:" + kind + ":good-request-after-garbage-differs",
-				What:  "a well-formed request is answered differently after malformed input than on a fresh server",
-				Input: map[string]any{"server": t.Name(), "after": after, "body": goodBody}, Observed: o.Outcome(), Expected: ref.Outcome()})
+		r.record = false
+		why := r.probe(t, goodIn, ref, after)
+		r.record = true
+		if why != "" && strings.HasPrefix(why, "fresh session") {
+			r.unresponsive(t, mk, batchStart, why)
 		}
-		if why := t.Alive(); why != "" {
-			r.s.Violate(hk.Violation{Fingerprint: "rpc:" + kind + ":not-alive-after-batch", What: "ping after a batch of malformed input: " + why,
-				Input: map[string]any{"server": t.Name(), "after": after}})
+		batchStart = len(r.hist)
+	}
+	step := func(c Case, in Input) {
+		if r.dead[t] {
+			return
+		}
+		if o := r.exchange(t, c, in); o.Dead {
+			// the server stopped answering on the connection in use: find the input after which that began
+			r.unresponsive(t, mk, batchStart, strings.Join(o.Problems, "; "))
 		}
 	}
+	// repeated life-cycle messages first, in order, then everything else shuffled
+	for _, c := range LifecycleCases(t.Reg()) {
+		if in, ok := deliver(t, c.Body); ok {
+			step(c, in)
+		}
+	}
+	check("life-cycle sequence")
 	for i, c := range cs {
 		in, ok := deliver(t, c.Body)
 		if !ok {
 			continue
 		}
-		r.exchange(t, c, in)
+		step(c, in)
 		if i%25 == 24 {
 			check(c.Label)
 		}
 	}
+	check("the last inputs")
 	lap("cases")
 	r.httpCases(t)
 	check("http-level cases")
 	lap("http")
-	if st, ok := t.(*streamable); ok {
+	if st, ok := t.(*streamable); ok && !r.dead[t] {
+		r.record = false
 		r.rawTCP(st)
+		r.record = true
 		check("raw TCP garbage")
 		lap("rawtcp")
+	}
+	if r.dead[t] {
+		return
 	}
 	// census after quiescence
 	waitQuiet(5 * time.Second)
@@ -637,7 +757,14 @@ func (r *runner) runSurvive(only string) {
 			r.fail("setup-"+k, err)
 			continue
 		}
-		r.surviveOn(ts[0], r.surviveCases(reg))
+		kk := k
+		r.surviveOn(ts[0], r.surviveCases(reg), func() (Target, error) {
+			t2, err := r.targets(reg, kk)
+			if err != nil {
+				return nil, err
+			}
+			return t2[0], nil
+		})
 		ts[0].Close()
 	}
 }
